@@ -12,4 +12,4 @@ Extraction "lz4v.ml"
   spec_decode_fast strict_valid_fast spec_decode strict_valid parse_block encode_block
   xxh32 frame_decode stream_decode header_bytes parse_desc
   mem_of_list store_list load_list get dec_generic decompress_usingDict
-  ctx_init compress_fast_extState compress_fast_extState_fastReset compress_destSize compressBound.
+  ctx_init compress_fast_extState compress_fast_extState_fastReset compress_destSize compress_destSize_internal compressBound.
